@@ -100,3 +100,25 @@ Definition summary (defaults : opts) (cs : list case) : nat * nat * Z :=
 (* documentation table vs code table *)
 Definition doc_mismatches (code doc : opts) : list string :=
   map fst (filter (fun kv => negb (opt_value_eqb (get (fst kv) code) (Some (snd kv)))) doc).
+
+(* ---- set_user_pf_options: the stored user layer as a function of the call history ---- *)
+(* set_user_pf_options(net, reset, **kw): `net.user_pf_options` is replaced by {} when reset (or when absent:
+   modelled by starting from []), then updated with kw. *)
+Definition set_user (user : opts) (reset : bool) (kw : opts) : opts :=
+  merge (if reset then [] else user) kw.
+
+Definition set_user_seq (ops : list (bool * opts)) (user0 : opts) : opts :=
+  fold_left (fun u op => set_user u (fst op) (snd op)) ops user0.
+
+(* correspondence case for a history of set_user_pf_options calls followed by init_options *)
+Record hcase := { h_ops : list (bool * opts); h_kw : opts; h_stored : opts; h_observed : opts }.
+
+Definition hcase_ok (defaults : opts) (c : hcase) : bool :=
+  let u := set_user_seq (h_ops c) [] in
+  same_dict u (h_stored c) &&
+  same_dict (resolve true (VStr "water") defaults u (h_kw c)) (h_observed c).
+
+Definition hsummary (defaults : opts) (cs : list hcase) : nat * nat * Z :=
+  (length cs, length (filter (fun c => negb (hcase_ok defaults c)) cs),
+   (fix first (l : list hcase) (i : Z) : Z :=
+      match l with [] => (-1)%Z | c :: r => if hcase_ok defaults c then first r (i + 1)%Z else i end) cs 0%Z).
